@@ -1,59 +1,80 @@
-/* replay_rt.c - native replay runtime: nondet_T() pop the solver's values.
- * Replay file ($VERIF_REPLAY_VALUES): one value per line, "<width> <hex>".
+/* replay_rt.c - native replay runtime (see verif.h). Replay file
+ * ($VERIF_REPLAY_VALUES): one value per line:
+ *     <basename-of-file> <line> <width> <hex> <lhs>
+ * Scalars are matched by (file, line) in FIFO order, ND_FILL elements by lhs.
  */
 #if ! defined (__CPROVER__) && ! defined (VERIF_CBMC)
 #include <stdio.h>
 #include <stdlib.h>
 #include <string.h>
 #include <stdint.h>
+#include <unistd.h>
 
-static int vf_loaded = 0 ;
-static int vf_n = 0, vf_i = 0 ;
-static struct { int width ; uint64_t bits ; } *vf_q ;
+typedef struct { char file [64] ; int line, width, used ; uint64_t bits ; char lhs [96] ; } VF_ENT ;
+static VF_ENT *vf_q ;
+static int vf_n, vf_loaded ;
+
+static const char *
+vf_base (const char *p)
+{	const char *s = strrchr (p, '/') ;
+	return s ? s + 1 : p ;
+}
 
 static void
 vf_load (void)
 {	const char *path = getenv ("VERIF_REPLAY_VALUES") ;
 	FILE *f ;
-	int w, cap = 0 ;
-	unsigned long long v ;
+	int cap = 0 ;
+	char file [256], lhs [256] ;
+	int line, width ;
+	unsigned long long bits ;
 	vf_loaded = 1 ;
 	if (path == NULL || (f = fopen (path, "r")) == NULL)
 		return ;
-	while (fscanf (f, "%d %llx", &w, &v) == 2)
+	while (fscanf (f, "%255s %d %d %llx %255s", file, &line, &width, &bits, lhs) == 5)
 	{	if (vf_n >= cap)
 		{	cap = cap ? 2 * cap : 256 ;
 			vf_q = realloc (vf_q, cap * sizeof (*vf_q)) ;
 			} ;
-		vf_q [vf_n].width = w ;
-		vf_q [vf_n].bits = v ;
+		memset (&vf_q [vf_n], 0, sizeof (VF_ENT)) ;
+		strncpy (vf_q [vf_n].file, vf_base (file), 63) ;
+		strncpy (vf_q [vf_n].lhs, lhs, 95) ;
+		vf_q [vf_n].line = line ; vf_q [vf_n].width = width ; vf_q [vf_n].bits = bits ;
 		vf_n ++ ;
 		} ;
 	fclose (f) ;
 }
 
-static uint64_t
-vf_pop (int width)
-{	if (! vf_loaded) vf_load () ;
-	if (vf_i >= vf_n)
-		return 0 ;	/* values the solver did not care about */
-	if (vf_q [vf_i].width != width)
-	{	fprintf (stderr, "REPLAY-DESYNC: want width %d, have %d at %d\n", width, vf_q [vf_i].width, vf_i) ;
-		exit (79) ;
-		} ;
-	return vf_q [vf_i ++].bits ;
+uint64_t
+vf_nd (const char *file, int line, int width)
+{	int k ;
+	const char *b = vf_base (file) ;
+	if (! vf_loaded) vf_load () ;
+	for (k = 0 ; k < vf_n ; k++)
+		if (! vf_q [k].used && vf_q [k].line == line && vf_q [k].width == width && strcmp (vf_q [k].file, b) == 0 && strchr (vf_q [k].lhs, '[') == NULL)
+		{	vf_q [k].used = 1 ;
+			return vf_q [k].bits ;
+			} ;
+	return 0 ;	/* the solver did not care */
 }
 
-int		nondet_int (void)	{ return (int) (uint32_t) vf_pop (32) ; }
-unsigned	nondet_uint (void)	{ return (uint32_t) vf_pop (32) ; }
-short		nondet_short (void)	{ return (short) (uint16_t) vf_pop (16) ; }
-unsigned short	nondet_ushort (void)	{ return (uint16_t) vf_pop (16) ; }
-signed char	nondet_schar (void)	{ return (signed char) (uint8_t) vf_pop (8) ; }
-unsigned char	nondet_uchar (void)	{ return (uint8_t) vf_pop (8) ; }
-int64_t		nondet_i64 (void)	{ return (int64_t) vf_pop (64) ; }
-uint64_t	nondet_u64 (void)	{ return vf_pop (64) ; }
-float		nondet_float (void)	{ uint32_t b = (uint32_t) vf_pop (32) ; float f ; memcpy (&f, &b, 4) ; return f ; }
-double		nondet_double (void)	{ uint64_t b = vf_pop (64) ; double d ; memcpy (&d, &b, 8) ; return d ; }
+uint64_t
+vf_nd_elem (const char *name, int idx, int width)
+{	int k ;
+	char a [128], b [128] ;
+	if (! vf_loaded) vf_load () ;
+	snprintf (a, sizeof (a), "%s[%dl]", name, idx) ;
+	snprintf (b, sizeof (b), "%s[%d]", name, idx) ;
+	for (k = 0 ; k < vf_n ; k++)
+		if (! vf_q [k].used && vf_q [k].width == width && (strcmp (vf_q [k].lhs, a) == 0 || strcmp (vf_q [k].lhs, b) == 0))
+		{	vf_q [k].used = 1 ;
+			return vf_q [k].bits ;
+			} ;
+	return 0 ;
+}
+
+float	vf_bits2f (uint64_t b)	{ uint32_t u = (uint32_t) b ; float f ; memcpy (&f, &u, 4) ; return f ; }
+double	vf_bits2d (uint64_t b)	{ double d ; memcpy (&d, &b, 8) ; return d ; }
 
 void
 vf_fail (const char *msg, const char *file, int line)
